@@ -334,6 +334,14 @@ impl<T: Qcow2IoOps> Qcow2Dev<T> {
                 }
 
                 if compressed {
+                    // A slice is marked clean when its write-back starts: if
+                    // somebody else (the other half of a write that spans two
+                    // compressed clusters, for one) is writing this slice
+                    // right now, our flush above found nothing to do.  The
+                    // writer keeps the slice read-locked until its write is
+                    // done: wait for that, the fsync has to cover it.
+                    drop(l2_handle.value().write().await);
+
                     // the new mapping has to be durable before the refcounts
                     // of the old compressed clusters may drop: the slice
                     // write above and a later refcount flush could otherwise
